@@ -95,21 +95,30 @@ CHECKS = {
             "(a role reachable along two paths is requested once per path: known finding shared_delegate, F15). "
             "Correspondence over self/mutual delegation, cycles with leaf siblings, random cyclic graphs, DAGs.",
             NOTE + MODELLED, "5/C09"),
-    "C10": ("Coq proof of editor-then-client = identity for repositories without delegated roles (composition of the "
-            "editor's sign/write model with the client model), meta-exactness, threshold and incoming-metadata lemmas; random "
-            "editing programs through the real editor API, written to disk and loaded by the real client",
+    "C10": ("Coq proof of editor-then-client = identity for repositories without delegated roles and with a tree of "
+            "delegated roles of any shape and depth (composition of the editor's sign/write model with the client model), "
+            "meta-exactness, threshold and incoming-metadata lemmas; random editing programs through the real editor API, "
+            "written to disk and loaded by the real client",
             "Theorems: if the editor's sign step succeeds the client (same root) loads exactly the targets/snapshot/timestamp "
-            "the editor built, for all entries, versions, key sets, lengths/digests, both settings (C10_roundtrip_partial: no "
-            "delegated roles); snapshot and timestamp describe the written files exactly; signing needs the threshold; "
-            "incoming role metadata is incorporated only with a threshold of distinct authorised signatures and a version "
-            "not lower. Delegation chains to depth 3, inadequate thresholds and key sets, the cross-party flow, odd names, "
-            "copy/symlink publication and downloads are covered by the correspondence runs with an independent Python "
-            "tracker of what was put in. Known finding: url_encoded_target_name.",
-            NOTE + MODELLED + " The Gallina model of sign + write (ed_sign) is executed on every run against the files the "
-            "real editor wrote for the programs without delegated roles (versions, expirations, entries, signers, snapshot "
-            "and timestamp entries with the lengths and digests of the written files, file names; refusal for inadequate "
-            "key sets); for programs with delegations the editor is tied to the property through the end-to-end runs "
-            "and the Python tracker only.", "5/C10"),
+            "the editor built, for all entries, versions, key sets, lengths/digests, both settings - without delegated roles "
+            "(C10_roundtrip_partial) and with a tree of delegated roles of any depth, each with its own keys, threshold, paths, "
+            "version, expiration and entries (C10_roundtrip_delegated: the loaded targets document carries the whole tree, "
+            "C10_loaded_tree_exact), under explicit conditions on role names (pairwise distinct over the tree; not "
+            "<root version+1>.root when file names carry no version) which are shown necessary by C10_distinct_names_refuted "
+            "and C10_next_root_name_refuted; snapshot and timestamp describe the written files exactly, every delegated role's "
+            "file included (C10_meta_exact, C10_meta_exact_delegated); signing needs the threshold, for delegated roles under the "
+            "delegating role (C10_delegated_sign_checked); incoming role metadata is incorporated only with a threshold of "
+            "distinct authorised signatures and a version not lower. Not proved for the composed system: the cross-party flow "
+            "(role holder signs elsewhere, update_delegated_targets, sign), target publication and download; these, odd names, "
+            "copy/symlink publication are covered by the correspondence runs with an independent Python tracker of what was "
+            "put in. Known finding: url_encoded_target_name.",
+            NOTE + MODELLED + " The Gallina models of sign + write (ed_sign, ed_sign_tree) are executed on every run against "
+            "the files the real editor wrote: the model's input is what the program put in (a Python interpreter of the editing "
+            "operations: per role its header, keys, threshold, paths, parent, version, expiration, targets, offered signing keys), "
+            "its answer is compared with every written role file (version, expiration, entries, delegation headers, key tables, "
+            "signers), the tree as a client resolves it, snapshot and timestamp entries with the lengths and digests of the "
+            "written files, and the file names; refusals of sign (inadequate key sets, under-signed delegated role, reserved "
+            "role name, target outside the delegated paths) against refusals of the model.", "5/C10"),
     "C11": ("Coq proof that the CanonicalFormatter state machine (driven by serde_json's event sequence) computes the "
             "recursive OLPC specification; order-independence and sortedness theorems; differential correspondence "
             "and independent Python specification oracle",
